@@ -225,13 +225,13 @@ fn c11_emit(sink: &mut Sink, note: &str, outer: &Loop3D, cands: &[(Loop3D, Strin
     }
     sink.push(
         format!("({}, {}, [{}], [{}])", loop_coq(outer), init_c, coq_h.join("; "), coq_s.join("; ")),
-        format!("{{\"note\":\"{}\",\"outer\":{},\"init\":{},\"holes\":[{}],\"snaps\":[{}]}}", note, loop_json(outer), init_j, j_h.join(","), j_s.join(",")),
+        format!("{{{}\"note\":\"{}\",\"outer\":{},\"init\":{},\"holes\":[{}],\"snaps\":[{}]}}", f32_mark(), note, loop_json(outer), init_j, j_h.join(","), j_s.join(",")),
     );
 }
 
 pub fn run_c11(seed: u64, n: usize, out: &str) {
     let mut r = Rng::new(seed ^ 0xC11);
-    let mut sink = Sink::new(out, "C11", 25);
+    let mut sink = Sink::new32(out, "C11", 25);
     // corpus first: the three scenarios of the crate's own test, then generated histories
     {
         let fr = Frame::xy();
@@ -244,7 +244,7 @@ pub fn run_c11(seed: u64, n: usize, out: &str) {
         c11_emit(&mut sink, "corpus:crate-test", &outer, &[(t, "tilt".into()), (h1, "ok".into()), (h3, "encloses".into())]);
     }
     while sink.len() < n {
-        let fr = Frame::random(&mut r, 1000.0);
+        let fr = frame_for(&mut r, 1000.0);
         let nmax = if r.chance(0.2) { 30 } else { 12 };
         let (poly, fam) = rand_outline(&mut r, nmax);
         let outer = match make_loop(&fr, &poly) { Some(l) => l, None => continue };
@@ -290,7 +290,7 @@ pub fn replay_c11(args: &[String]) {
     let (outer, mut off) = bits_loop(args);
     let mut cands = vec![];
     while off < args.len() { let (h, k) = bits_loop(&args[off..]); off += k; cands.push((h, "replay".to_string())); }
-    let mut sink = Sink::new("/dev/null", "C11", 1);
+    let mut sink = Sink::new32("/dev/null", "C11", 1);
     c11_emit(&mut sink, "replay", &outer, &cands);
     for j in &sink.json { println!("{}", j); }
 }
@@ -324,7 +324,7 @@ fn c12_emit(sink: &mut Sink, note: &str, outer: &Loop3D, holes: &[Loop3D]) -> Op
     let hj: Vec<String> = holes.iter().map(loop_json).collect();
     sink.push(
         format!("CM ({}, {}, {}, ({}%N, {}), ({}%N, {}))", loop_coq(outer), loops_coq(&hc), sfs(&[pg.area(), n.x, n.y, n.z]), mo, mc, co, cc),
-        format!("{{\"kind\":\"merge\",\"note\":\"{}\",\"outer\":{},\"holes\":[{}],\"area\":{},\"n\":{},\"mo\":{},\"merged\":{},\"co\":{},\"closed\":{}}}",
+        format!("{{{}\"kind\":\"merge\",\"note\":\"{}\",\"outer\":{},\"holes\":[{}],\"area\":{},\"n\":{},\"mo\":{},\"merged\":{},\"co\":{},\"closed\":{}}}", f32_mark(),
                 note, loop_json(outer), hj.join(","), jf(pg.area()), jfs(&[n.x, n.y, n.z]), mo, mj, co, cj),
     );
     Some(built)
@@ -381,7 +381,7 @@ fn ops_emit(sink: &mut Sink, group: &str, note: &str, loops: &[Loop3D], labels: 
     let lb: Vec<String> = labels.iter().map(|x| format!("\"{}\"", x)).collect();
     sink.push(
         format!("CQ {}%N {} {} [{}]", if pg.is_some() { nh + 1 } else { 0 }, sfl_typed(&an), loops_coq(&lc), cq.join("; ")),
-        format!("{{\"kind\":\"ops\",\"group\":\"{}\",\"note\":\"{}\",\"poly\":{},\"nh\":{},\"an\":{},\"loops\":[{}],\"labels\":[{}],\"qs\":[{}]}}",
+        format!("{{{}\"kind\":\"ops\",\"group\":\"{}\",\"note\":\"{}\",\"poly\":{},\"nh\":{},\"an\":{},\"loops\":[{}],\"labels\":[{}],\"qs\":[{}]}}", f32_mark(),
                 group, note, pg.is_some(), nh, jfs(&an), lj.join(","), lb.join(","), jq.join(",")),
     );
 }
@@ -582,7 +582,7 @@ pub fn run_c12(seed: u64, n: usize, out: &str, with_ops: bool) {
     // the operation queries draw from their own generator state: the merge cases are the same with and without them
     let mut x = Rng::new(seed ^ 0xC120B5);
     let mut n_merge = 0usize;
-    let mut sink = Sink::new(out, "C12", 25);
+    let mut sink = Sink::new32(out, "C12", 25);
     // corpus first: the witness of the index defect (unit square, triangular hole wound like the outline), and the crate's test
     {
         let fr = Frame::xy();
@@ -595,7 +595,7 @@ pub fn run_c12(seed: u64, n: usize, out: &str, with_ops: bool) {
         if c12_emit(&mut sink, "corpus:crate-test", &outer, &[h]).is_some() { n_merge += 1; }
     }
     while n_merge < n {
-        let fr = Frame::random(&mut r, 1000.0);
+        let fr = frame_for(&mut r, 1000.0);
         let nmax = if r.chance(0.2) { 24 } else { 10 };
         let (poly, fam) = rand_outline(&mut r, nmax);
         let outer = match make_loop(&fr, &poly) { Some(l) => l, None => continue };
@@ -648,7 +648,7 @@ pub fn replay_c12(args: &[String]) {
     let (outer, mut off) = bits_loop(args);
     let mut hs = vec![];
     while off < args.len() { let (h, k) = bits_loop(&args[off..]); off += k; hs.push(h); }
-    let mut sink = Sink::new("/dev/null", "C12", 1);
+    let mut sink = Sink::new32("/dev/null", "C12", 1);
     if c12_emit(&mut sink, "replay", &outer, &hs).is_none() { println!("replay: the polygon could not be rebuilt (cut_hole refused)"); }
     for j in &sink.json { println!("{}", j); }
 }
@@ -712,7 +712,7 @@ fn c20_doc(sink: &mut Sink, note: &str, text: &str, src: Option<(&Loop3D, &[Loop
     let nums = parsed.as_ref().ok().and_then(flat_numbers);
     sink.push(
         format!("({}%N, {}, {}, ({}%N, {}), ({}%N, {}))", kind, tree, src_c, lo, lc, po, pc),
-        format!("{{\"kind\":{},\"note\":\"{}\",\"text\":{},\"parse_ok\":{},\"nums\":{},\"src\":{},\"lo\":{},\"loop\":{},\"lmsg\":{},\"po\":{},\"poly\":{},\"pmsg\":{}}}",
+        format!("{{{}\"kind\":{},\"note\":\"{}\",\"text\":{},\"parse_ok\":{},\"nums\":{},\"src\":{},\"lo\":{},\"loop\":{},\"lmsg\":{},\"po\":{},\"poly\":{},\"pmsg\":{}}}", f32_mark(),
                 kind, note, jstr(text), parsed.is_ok(), match nums { Some(v) => jfs(&v), None => "null".into() }, src_j, lo, lj, jstr(&lm), po, pj, jstr(&pm)),
     );
 }
@@ -729,7 +729,7 @@ fn c20_pv(sink: &mut Sink, r: &mut Rng) {
     let (o, b) = match back { Ok(Ok(v)) => (0, v), Ok(Err(_)) => (1, vec![]), Err(_) => (99, vec![]) };
     sink.push(
         format!("(8%N, jnull, ({}, noloops, nosf), (0%N, {}), (0%N, ({}, nosf, 0%N)))", NOLOOP_C, NOLOOP_C, NOLOOP_C),
-        format!("{{\"kind\":8,\"note\":\"{}\",\"text\":{},\"orig\":{},\"finite\":{},\"o\":{},\"back\":{}}}", if isvec { "vector" } else { "point" }, jstr(&text), jfs(&p), fin, o, jfs(&b)),
+        format!("{{{}\"kind\":8,\"note\":\"{}\",\"text\":{},\"orig\":{},\"finite\":{},\"o\":{},\"back\":{}}}", f32_mark(), if isvec { "vector" } else { "point" }, jstr(&text), jfs(&p), fin, o, jfs(&b)),
     );
 }
 fn c20_pv_malformed(sink: &mut Sink, text: &str) {
@@ -737,7 +737,7 @@ fn c20_pv_malformed(sink: &mut Sink, text: &str) {
     let o2 = match catch(AUS(|| serde_json::from_str::<Vector3D>(text).map(|_| ()).map_err(|e| e.to_string()))) { Ok(Ok(())) => 0, Ok(Err(_)) => 1, Err(_) => 99 };
     sink.push(
         format!("(8%N, jnull, ({}, noloops, nosf), (0%N, {}), (0%N, ({}, nosf, 0%N)))", NOLOOP_C, NOLOOP_C, NOLOOP_C),
-        format!("{{\"kind\":7,\"note\":\"pv-malformed\",\"text\":{},\"o\":{},\"o2\":{}}}", jstr(text), o1, o2),
+        format!("{{{}\"kind\":7,\"note\":\"pv-malformed\",\"text\":{},\"o\":{},\"o2\":{}}}", f32_mark(), jstr(text), o1, o2),
     );
 }
 
@@ -746,7 +746,7 @@ fn flat3(fr: &Frame, pts: &[P2]) -> Vec<f64> { pts.iter().flat_map(|p| { let q =
 
 /// malformed (and a few unusual but valid) documents of every kind listed in the property
 fn malformed_docs(r: &mut Rng) -> Vec<(String, String)> {
-    let fr = Frame::random(r, 100.0);
+    let fr = frame_for(r, 100.0);
     let (poly, _) = simple_polygon(r, 8);
     let good = flat3(&fr, &poly);
     let mut d: Vec<(String, String)> = vec![];
@@ -831,7 +831,7 @@ fn malformed_docs(r: &mut Rng) -> Vec<(String, String)> {
 
 pub fn run_c20(seed: u64, n: usize, out: &str) {
     let mut r = Rng::new(seed ^ 0xC20);
-    let mut sink = Sink::new(out, "C20", 40);
+    let mut sink = Sink::new32(out, "C20", 40);
     // corpus first: the documents on which the pinned deserialiser panicked, plus the committed corpus directory
     for t in ["[1,2]", "null"] { c20_doc(&mut sink, "corpus:F13-witness", t, None); }
     let dir = std::env::var("VERIF_CORPUS").unwrap_or_else(|_| format!("{}/../corpus", env!("CARGO_MANIFEST_DIR")));
@@ -845,7 +845,7 @@ pub fn run_c20(seed: u64, n: usize, out: &str) {
         match r.below(20) {
             0..=4 => {
                 // round trip of a closed loop of the C04 space
-                let fr = Frame::random(&mut r, 1000.0);
+                let fr = frame_for(&mut r, 1000.0);
                 let nmax = if r.chance(0.2) { 40 } else { 12 };
                 let (poly, fam) = rand_outline(&mut r, nmax);
                 let l = match make_loop(&fr, &poly) { Some(l) => l, None => continue };
@@ -854,7 +854,7 @@ pub fn run_c20(seed: u64, n: usize, out: &str) {
             }
             5..=8 => {
                 // polygon with 0..3 holes
-                let fr = Frame::random(&mut r, 1000.0);
+                let fr = frame_for(&mut r, 1000.0);
                 let (poly, fam) = rand_outline(&mut r, 10);
                 let outer = match make_loop(&fr, &poly) { Some(l) => l, None => continue };
                 let scale = area2(&poly).abs().sqrt();
@@ -884,7 +884,7 @@ pub fn run_c20(seed: u64, n: usize, out: &str) {
 /// replay: the document text; optionally followed by `loop <loop bits>` or `poly <outer bits> <hole bits>..`
 /// (the source of a round-trip case: rebuilt, serialised again and read back)
 pub fn replay_c20(args: &[String]) {
-    let mut sink = Sink::new("/dev/null", "C20", 1);
+    let mut sink = Sink::new32("/dev/null", "C20", 1);
     if args.len() > 2 && (args[1] == "loop" || args[1] == "poly") {
         let (outer, mut off) = bits_loop(&args[2..]);
         let mut hs = vec![];
